@@ -1,6 +1,7 @@
 package props
 
 import (
+	"github.com/robfig/soy/data"
 	"io"
 	"log"
 	"os"
@@ -214,12 +215,28 @@ func checkC06(c C06Case) Verdict {
 				// each level of the recursion stands inside thousands of nested blocks: few calls, much stack
 				src += "/** @param n */\n{template .nested}" + strings.Repeat("{if $n >= 0}", 3000) + "{if $n > 0}{call .nested}{param n: $n - 1 /}{/call}{/if}" + strings.Repeat("{/if}", 3000) + "{/template}\n"
 			}
+			if c.Text == "aligned" {
+				// a recursion along a linked list whose calls evaluate nothing (data="all") every other hop, with
+				// c.Deep nested blocks around each call: for some number of blocks a limit on the nesting is
+				// reached exactly where a called template begins
+				k := c.Deep%200 + 1
+				src += "/** @param? node */\n{template .aligned}" + strings.Repeat("{if $node}", k) + "{call .alignedItem}{param node: $node.next /}{/call}" + strings.Repeat("{/if}", k) + "{/template}\n" +
+					"/** @param? node */\n{template .alignedItem}{call .aligned data=\"all\" /}{/template}\n"
+			}
 			cb, cerr, pn := compileBundle([]string{"deep.soy"}, []string{src}, nil)
 			if cerr != nil || pn != nil {
 				panicked = fmt.Sprintf("the harness's own bundle does not compile: %v %v", cerr, pn)
 				return
 			}
 			var buf bytes.Buffer
+			if c.Text == "aligned" {
+				var list data.Value = data.Null{}
+				for i := 0; i < 1200; i++ {
+					list = data.Map{"next": list, "i": data.Int(i)}
+				}
+				panicked = catch(func() { err = cb.tofu.NewRenderer("zd.aligned").Execute(&buf, data.Map{"node": list}) })
+				return
+			}
 			panicked = catch(func() { err = cb.tofu.Render(&buf, "zd."+c.Text, map[string]interface{}{"n": c.Deep}) })
 		case "globals":
 			what = fmt.Sprintf("ParseGlobals(%q)", c.Text)
